@@ -16,7 +16,7 @@
     arguments). *)
 From Coq Require Import ZArith List.
 From stdpp Require Import gmap sorting.
-From HV Require Import Evm.ExecModel App.DeterminismModel App.DeterminismProofs.
+From HV Require Import Evm.ExecModel App.DeterminismModel App.DeterminismProofs App.BlockHashProofs.
 Import ListNotations.
 Local Open Scope Z_scope.
 
@@ -131,3 +131,108 @@ Theorem C01_check_mode_depends_on_node_local :
   eth_gas_wanted Check (mknl 0 100 0 0 0) [1000; 50] = 150 /\ eth_gas_wanted Deliver (mknl 0 100 0 0 0) [1000; 50] = 1050.
 Proof. exact check_mode_depends_on_node_local. Qed.
 Print Assumptions C01_check_mode_depends_on_node_local.
+
+(** ---- the BLOCKHASH environment function (x/evm GetHashFn over x/staking's HistoricalInfo) ---- *)
+
+(** Whatever happens to a node between and around the blocks that is not a block input --
+    ABCI queries (eth_call, estimateGas, Simulate, bank / staking queries), CheckTx, restarts
+    from the database, construction of further application objects -- in any interleaving:
+    two replicas that got the same blocks have the same historical info and height after
+    every block (there is one state per block), and therefore answer BLOCKHASH identically
+    for every requested height. *)
+Theorem C01_blockhash_replicas_agree :
+  forall (evs1 evs2 : list pevent) (r : replica),
+    blocks_of evs1 = blocks_of evs2 ->
+    length (ptrace evs1 r) = length (blocks_of evs1) /\
+    ptrace evs1 r = ptrace evs2 r /\
+    prun evs1 r = prun evs2 r /\
+    Forall2 (fun a b => r_hist a = r_hist b /\ r_height a = r_height b /\
+                        forall cur_hash req, hash_fn (r_hist a) (r_height a) cur_hash req = hash_fn (r_hist b) (r_height b) cur_hash req)
+            (ptrace evs1 r) (ptrace evs2 r).
+Proof. exact blockhash_replicas_agree. Qed.
+Print Assumptions C01_blockhash_replicas_agree.
+
+(** TrackHistoricalInfo, exactly: after n blocks from genesis with HistoricalEntries = e the
+    header of height req is stored iff max 1 (n - e + 1) <= req <= n. *)
+Theorem C01_historical_info_exact :
+  forall (e : Z) (hdr : Z -> bhash) (n : nat) (req : Z),
+    0 <= e ->
+    hist_after e hdr n !! req =
+    if (Z.max 1 (Z.of_nat n - e + 1) <=? req) && (req <=? Z.of_nat n) then Some (hdr req) else None.
+Proof. exact hist_after_lookup. Qed.
+Print Assumptions C01_historical_info_exact.
+
+(** BLOCKHASH in block n (or in a query on the state committed by block n): the stored header's
+    hash iff max 1 (n - e + 1) <= req < n and n - req <= 256, zero otherwise -- whatever the
+    hash of the current block is. *)
+Theorem C01_blockhash_available_exact :
+  forall (e : Z) (hdr : Z -> bhash) (n : nat) (cur_hash req : Z),
+    0 <= e -> Z.of_nat n <= max_int64 ->
+    hash_fn (hist_after e hdr n) (Z.of_nat n) cur_hash req =
+    if bh_available e (Z.of_nat n) req then hdr req else 0.
+Proof. exact blockhash_available_exact. Qed.
+Print Assumptions C01_blockhash_available_exact.
+
+Theorem C01_blockhash_nonzero_iff :
+  forall (e : Z) (hdr : Z -> bhash) (n : nat) (cur_hash req : Z),
+    0 <= e -> Z.of_nat n <= max_int64 -> (forall k, hdr k <> 0) ->
+    (hash_fn (hist_after e hdr n) (Z.of_nat n) cur_hash req <> 0 <->
+     Z.max 1 (Z.of_nat n - e + 1) <= req /\ req < Z.of_nat n /\ Z.of_nat n - req <= 256).
+Proof. exact blockhash_nonzero_iff. Qed.
+Print Assumptions C01_blockhash_nonzero_iff.
+
+(** ... and a replica that was queried / restarted in any way while it executed those n blocks
+    answers by the same closed formula. *)
+Theorem C01_blockhash_perturbed_replica_exact :
+  forall (e : Z) (hdr : Z -> bhash) (n : nat) (evs : list pevent) (cur_hash req : Z),
+    0 <= e -> Z.of_nat n <= max_int64 ->
+    blocks_of evs = block_events e hdr n ->
+    let r := prun evs rep0 in
+    r_height r = Z.of_nat n /\
+    hash_fn (r_hist r) (r_height r) cur_hash req = if bh_available e (Z.of_nat n) req then hdr req else 0.
+Proof. exact blockhash_perturbed_replica_exact. Qed.
+Print Assumptions C01_blockhash_perturbed_replica_exact.
+
+(** Non-vacuity: HistoricalEntries = 3, block 6: height 2 is inside the 256 window but pruned and
+    gives zero, 4 and 5 are answered, 6 and 7 are not (GetHashFn itself would answer 6 with the
+    current header hash); 257 blocks back is outside the window even when every header is kept;
+    HistoricalEntries 0 and 1 never answer. *)
+Theorem C01_blockhash_pruned_inside_window :
+  let h := hist_after 3 (fun k => 100 + k) 6 in
+  hash_fn h 6 7 2 = 0 /\ hash_fn h 6 7 3 = 0 /\ hash_fn h 6 7 4 = 104 /\ hash_fn h 6 7 5 = 105 /\
+  hash_fn h 6 7 6 = 0 /\ hash_fn h 6 7 7 = 0 /\ get_hash_fn h 6 7 6 = 7 /\
+  bh_available 3 6 2 = false /\ bh_available 10000 6 2 = true /\
+  hash_fn (hist_after 10000 (fun k => 100 + k) 300) 300 7 44 = 144 /\
+  hash_fn (hist_after 10000 (fun k => 100 + k) 300) 300 7 43 = 0 /\
+  hash_fn (hist_after 0 (fun k => 100 + k) 6) 6 7 5 = 0 /\
+  hash_fn (hist_after 1 (fun k => 100 + k) 6) 6 7 5 = 0.
+Proof. exact blockhash_pruned_inside_window. Qed.
+Print Assumptions C01_blockhash_pruned_inside_window.
+
+(** Why the replicas of the harness must differ in their process history: in the same model with
+    a memo of resolved hashes inside the keeper object (shared by DeliverTx and queries, lost on
+    restart) the same blocks give different answers for the pruned height 2 in block 6 -- after
+    one eth_call the memo answers 102, without it or after a restart the answer is zero --
+    while the historical info is the same and the function as implemented answers zero. *)
+Theorem C01_blockhash_memo_breaks_agreement_refuted_in_model :
+  let b k := PBlock 3 (100 + k) in
+  let quiet := [b 1; b 2; b 3; b 4; b 5; b 6] in
+  let queried := [b 1; b 2; b 3; PQuery 2; b 4; b 5; b 6] in
+  let restarted := [b 1; b 2; b 3; PQuery 2; b 4; PRestart; b 5; b 6] in
+  blocks_of queried = blocks_of quiet /\ blocks_of restarted = blocks_of quiet /\
+  fst (hash_fn_memo (crun quiet c0) 7 2) = 0 /\
+  fst (hash_fn_memo (crun queried c0) 7 2) = 102 /\
+  fst (hash_fn_memo (crun restarted c0) 7 2) = 0 /\
+  c_hist (crun queried c0) = c_hist (crun quiet c0) /\
+  hash_fn (r_hist (prun queried rep0)) 6 7 2 = 0 /\ hash_fn (r_hist (prun restarted rep0)) 6 7 2 = 0.
+Proof. exact memo_breaks_agreement. Qed.
+Print Assumptions C01_blockhash_memo_breaks_agreement_refuted_in_model.
+
+(** The harness compares the zero / non-zero pattern of every BLOCKHASH the probe contract
+    evaluated with [check_bh]; that check is the closed formula. *)
+Theorem C01_check_bh_is_closed_formula :
+  forall (e : Z) (obs : list bh_obs),
+    0 <= e -> Forall (fun '(cur, req, nz) => 0 <= cur <= max_int64) obs ->
+    check_bh (e, obs) = forallb (fun '(cur, req, nz) => Bool.eqb (bh_available e cur req) nz) obs.
+Proof. exact check_bh_spec. Qed.
+Print Assumptions C01_check_bh_is_closed_formula.
